@@ -413,6 +413,10 @@ func ExecBTree(c CaseB) *vkit.Result {
 	st := &shapeTracker{}
 	res.Class(fmt.Sprintf("degree-%d", c.Degree))
 	const sp = "btree."
+	// VerifCheck takes the occupancy bounds (d-1 .. 2d-1 items) from the tree's degree: it must be the one passed to New
+	if d := t.VerifDegree(); d != c.Degree {
+		return res.Failf(sp+"New/degree", "New(%d) built a tree of degree %d", c.Degree, d)
+	}
 	afterWrite := func(name, ctx string) bool {
 		if err := t.VerifCheck(); err != nil {
 			res.Failf(sp+name+"/balance", "%s (degree %d): structural invariant broken: %v (sorted set %s)", ctx, c.Degree, err, fmtItems(m.it))
